@@ -1,7 +1,14 @@
 """RefSym: the harness's own charge arithmetic (never calls symmray.symmetries).
 
 Charges: Z2 {0,1}; Z4 {0..3}; U1 ints; Z2Z2 pairs over {0,1}; U1U1 pairs of ints.
+
+Two USER-DEFINED symmetries (the README documents supplying one's own Symmetry subclass;
+the classes themselves are defined by gen.user_symmetry): "Z3" (charges {0,1,2}, every charge
+even) and "BoseFermi" (pairs (N_f, N_b) of ints added componentwise, parity N_f % 2 - the
+same labels as U1U1 with a DIFFERENT grading).
 """
+
+USER_SYMS = ("Z3", "BoseFermi")
 
 SYMS = ("Z2", "U1", "Z2Z2", "U1U1", "Z4")
 
@@ -12,7 +19,7 @@ def symname(x):
 
 
 def identity(sym):
-    return (0, 0) if sym in ("Z2Z2", "U1U1") else 0
+    return (0, 0) if sym in ("Z2Z2", "U1U1", "BoseFermi") else 0
 
 
 def comb(sym, cs):
@@ -25,8 +32,10 @@ def comb(sym, cs):
         return sum(cs)
     if sym == "Z2Z2":
         return (sum(c[0] for c in cs) % 2, sum(c[1] for c in cs) % 2)
-    if sym == "U1U1":
+    if sym in ("U1U1", "BoseFermi"):
         return (sum(c[0] for c in cs), sum(c[1] for c in cs))
+    if sym == "Z3":
+        return sum(cs) % 3
     raise KeyError(sym)
 
 
@@ -37,8 +46,10 @@ def neg(sym, c):
         return (-c) % 4
     if sym == "U1":
         return -c
-    if sym == "U1U1":
+    if sym in ("U1U1", "BoseFermi"):
         return (-c[0], -c[1])
+    if sym == "Z3":
+        return (-c) % 3
     raise KeyError(sym)
 
 
@@ -61,14 +72,20 @@ def valid(sym, c):
         return _isint(c)
     if sym == "Z2Z2":
         return isinstance(c, tuple) and len(c) == 2 and all(_isint(v) and v in (0, 1) for v in c)
-    if sym == "U1U1":
+    if sym in ("U1U1", "BoseFermi"):
         return isinstance(c, tuple) and len(c) == 2 and all(_isint(v) for v in c)
+    if sym == "Z3":
+        return _isint(c) and c in (0, 1, 2)
     raise KeyError(sym)
 
 
 def par(sym, c):
     if sym in ("Z2", "Z4", "U1"):
         return c % 2
+    if sym == "Z3":
+        return 0
+    if sym == "BoseFermi":
+        return c[0] % 2
     return (c[0] + c[1]) % 2
 
 
